@@ -30,6 +30,7 @@ func init() {
 	register("simd", runSimd)
 	childHandlers["guard"] = childGuard
 	childHandlers["sse"] = childSse
+	childHandlers["align"] = childAlign
 }
 
 func classValue(r *Rng, class int) float32 {
@@ -107,6 +108,19 @@ func runSimd(c *Ctx) {
 		c.OpLocal("deterministic witnesses: manhattan 8x1e-25 / 8x1e25 vs zeros; cosine of 8x1e10 and 8x1e-12 with itself")
 		c.End()
 	}
+	// every pair of 4-byte-aligned start addresses modulo 16 (child process: a kernel that uses an
+	// aligned load on such an operand takes the process down)
+	c.Begin("alignment")
+	maxA := c.Pick(40, 300)
+	out, died := runChild(120*time.Second, "align", fmt.Sprint(maxA))
+	c.OpLocal("AVX implementation on lengths 1..%d x (a mod 16, b mod 16) in {0,4,8,12}^2 x 3 kernels vs portable: %s", maxA, lastLine(out))
+	c.Nontrivial("alignment")
+	if died || !strings.Contains(out, "align ok") {
+		c.Violate("C15", "C15/avx/alignment", "the AVX implementation faults or disagrees with the portable one for some pair of 4-byte-aligned start addresses; last case: "+lastLine(out), c.History())
+		c.End()
+		return // the same call in this process would take the harness down
+	}
+	c.End()
 	c.Begin("kernels")
 	cases := 0
 	for n := 1; n <= L; n++ {
@@ -196,7 +210,7 @@ func runSimd(c *Ctx) {
 	// guard pages (child process): vectors end exactly at an inaccessible page
 	c.Begin("guard-pages")
 	maxG := c.Pick(70, 300)
-	out, died := runChild(60*time.Second, "guard", "avx", fmt.Sprint(maxG))
+	out, died = runChild(60*time.Second, "guard", "avx", fmt.Sprint(maxG))
 	c.OpLocal("AVX kernels on vectors of length 1..%d placed against a PROT_NONE page: %s", maxG, strings.TrimSpace(out))
 	if died || !strings.Contains(out, "guard ok") {
 		c.Violate("C15", "C15/avx/out-of-bounds-read", "an AVX kernel read memory outside its vectors (fault against a guard page): "+strings.TrimSpace(out), c.History())
@@ -226,6 +240,22 @@ func resBits(f float32) string {
 		return "nan"
 	}
 	return fmt.Sprint(math.Float32bits(f))
+}
+
+func lastLine(s string) string {
+	for _, l := range strings.Split(s, "\n") {
+		if strings.HasPrefix(l, "unexpected fault") || strings.HasPrefix(l, "fatal error") || strings.HasPrefix(l, "[signal") {
+			i := strings.LastIndex(s[:strings.Index(s, l)], "case ")
+			if i >= 0 {
+				return strings.TrimSpace(strings.Split(s[i:], "\n")[0]) + " -> " + l
+			}
+		}
+	}
+	s = strings.TrimSpace(s)
+	if i := strings.LastIndexByte(s, '\n'); i >= 0 {
+		return s[i+1:]
+	}
+	return s
 }
 
 func firstLine(s string) string {
@@ -324,4 +354,46 @@ func childSse(args []string) {
 		}
 	}
 	fmt.Println("\nsse ok")
+}
+
+// child: align <maxlen> — the AVX implementation (as the dispatcher hands it out) on every pair of
+// 4-byte-aligned start addresses modulo 16
+func childAlign(args []string) {
+	avx, native := space.VerifAvxImpl(), space.VerifNativeImpl()
+	var max int
+	fmt.Sscan(args[0], &max)
+	names := []string{"euclid", "manhattan", "cosine"}
+	for n := 1; n <= max; n++ {
+		buf := make([]float32, n+12)
+		bufB := make([]float32, n+12)
+		base := uintptr(unsafe.Pointer(&buf[0]))
+		baseB := uintptr(unsafe.Pointer(&bufB[0]))
+		z, zB := int((16-base%16)%16)/4, int((16-baseB%16)%16)/4
+		for oa := 0; oa < 4; oa++ {
+			for ob := 0; ob < 4; ob++ {
+				a, b := amath.Vector(buf[z+oa:z+oa+n]), amath.Vector(bufB[zB+ob:zB+ob+n])
+				for i := range a {
+					a[i], b[i] = float32(i)+0.5, float32(n-i)
+				}
+				for k := 0; k < 3; k++ {
+					fmt.Printf("case n=%d a%%16=%d b%%16=%d %s\n", n, oa*4, ob*4, names[k])
+					os.Stdout.Sync()
+					var x, y float32
+					switch k {
+					case 0:
+						x, y = avx.EuclideanDistance(a, b), native.EuclideanDistance(a, b)
+					case 1:
+						x, y = avx.ManhattanDistance(a, b), native.ManhattanDistance(a, b)
+					default:
+						x, y = avx.CosineDistance(a, b), native.CosineDistance(a, b)
+					}
+					if (k < 2 && ulpDiff(x, y) > 1e-4) || (k == 2 && math.Abs(float64(x-y)) > 1e-4) {
+						fmt.Printf("differs: AVX %v portable %v\n", x, y)
+						os.Exit(3)
+					}
+				}
+			}
+		}
+	}
+	fmt.Println("align ok")
 }
